@@ -309,6 +309,16 @@ def build_calls(tmpdir):
         return {"a": out_a, "b": out_b, "__must__": out_a == seq_a and out_b == seq_b}
     add("interleaved_readers", lambda: {"s1": copy.deepcopy(S_A1), "r1": [copy.deepcopy(D_A1), copy.deepcopy(D_A1b)],
                                         "s2": copy.deepcopy(S_A2), "r2": [copy.deepcopy(D_A2)]}, interleaved)
+    # the same enum full name with the same symbols in another order (wave 7: a memo keyed by name + symbol *set*); write, then read back
+    def enum_rt(fa, a, sh):
+        out = [_sl(fa, a["schema"], d) for d in a["data"]]
+        back = [fa.schemaless_reader(io.BytesIO(b), a["schema"]) for b in out]
+        return {"bytes": out, "back": back, "valid": [fa.validate(d, a["schema"], raise_errors=False) for d in a["data"]]}
+    for tag, syms in (("rgb", ["RED", "GREEN", "BLUE"]), ("bgr", ["BLUE", "GREEN", "RED"])):
+        add("enum_same_name_" + tag, lambda syms=syms: {"schema": {"type": "record", "name": "ns.Paint", "fields": [
+            {"name": "c", "type": {"type": "enum", "name": "Hue", "symbols": list(syms)}},
+            {"name": "cs", "type": {"type": "array", "items": "Hue"}}]},
+            "data": [{"c": "BLUE", "cs": ["RED", "GREEN"]}, {"c": "RED", "cs": []}]}, enum_rt)
     # a writer schema that refers to a name it does not define: must fail the same way whatever was read before
     add("read_dangling_ref", lambda: {"schema": {"type": "record", "name": "ns.Uses", "fields": [{"name": "p", "type": "ns.Point"}]}},
         lambda fa, a, sh: fa.schemaless_reader(io.BytesIO(b"\x02\x04"), a["schema"]))
@@ -393,7 +403,7 @@ def run_c17(ctx, fa0):
     ctx.extra["alphabet"] = names
     ctx.extra["exhaustive_length"] = 2
     ctx.exhaustive = False
-    ctx.rule = ("alphabet of %d concrete calls chosen to collide (two schemas defining ns.Event/Point/Color differently, parsed-schema objects reused "
+    ctx.rule = ("alphabet of %d concrete calls chosen to collide (two schemas defining ns.Event/Point/Color differently, one enum name with its symbols in two orders, parsed-schema objects reused "
                 "across calls, a container write and a parse that fail midway, decimals of different precision, JSON with defaults, generate, load, "
                 "resolution, strict writes, two readers opened before either is consumed); every history of length 2 plus seeded random histories of "
                 "length 3-6, each run in a freshly imported library; every result compared with the same call made first in a fresh library, arguments "
